@@ -568,10 +568,10 @@ func vHistStrings(h []vOp) []string {
 
 // vSystem is the product of the real implementation and its reference model.
 type vSystem interface {
-	Reset()                      // fresh implementation instance(s) + fresh model
-	Enabled() []vOp              // alphabet in the current (model) state, simplest first
+	Reset()                               // fresh implementation instance(s) + fresh model
+	Enabled() []vOp                       // alphabet in the current (model) state, simplest first
 	Apply(op vOp, hist []vOp, check bool) // apply to implementation and model; when check, run the oracle
-	Key() string                 // canonical state (implementation + model)
+	Key() string                          // canonical state (implementation + model)
 }
 
 // vBFS explores every history up to maxDepth, deduplicating by canonical state. Each
